@@ -324,6 +324,24 @@ fn check_candidate<B: StarkField>(fname: &str, c: &Case, rng: &mut Rng, fails: &
         })
         .is_err(),
     };
+    // every other public entry point that takes (assertion, trace length) refuses what the validator refuses
+    if let Ok(asr) = &built {
+        let entries: [(&str, bool); 3] = [
+            ("divisor", guarded(|| { let _ = ConstraintDivisor::<B>::from_assertion(asr, n); }).is_err()),
+            ("num-steps", guarded(|| { let _ = asr.get_num_steps(n); }).is_err()),
+            ("apply", guarded(|| asr.apply(n, |_, _| {})).is_err()),
+        ];
+        for (name, refused) in entries {
+            if refused == c.wellformed {
+                fails.add(
+                    format!("air/{fname}/candidate-{name}/{}", if c.wellformed { "wellformed-refused" } else { "illformed-accepted" }),
+                    format!("n={n} {:?}: {} {} it", a, match name { "divisor" => "ConstraintDivisor::from_assertion", "num-steps" => "Assertion::get_num_steps", _ => "Assertion::apply" },
+                            if refused { "refuses" } else { "accepts" }),
+                    rp.clone(),
+                );
+            }
+        }
+    }
     *evals += 1;
     if refused_early == c.wellformed {
         fails.add(
